@@ -7,7 +7,7 @@ Import ListNotations.
 Local Open Scope char_scope.
 
 (* format then extract at converter level *)
-Definition roundtrip (pe:str -> option Conv.evr) (ex:str -> str) (t:ty) (opt:aval) (mw:list word) (v:pyval) : Prop :=
+Definition roundtrip (pe:str -> option Conv.evr) (ex:str -> option str) (t:ty) (opt:aval) (mw:list word) (v:pyval) : Prop :=
   exists ws, ty_as_words t opt mw v = Ok ws /\ ty_from_words pe ex t opt ws = Ok v.
 
 Lemma eqs_refl a : eqs a a = true.
@@ -23,7 +23,7 @@ Proof. intro N. destruct (eqs a b) eqn:E; [apply eqs_eq in E; contradiction|refl
 (* ---------------------------------------------------------------- str / key / path *)
 Section Text.
   Variable pe : str -> option Conv.evr.
-  Variable ex : str -> str.
+  Variable ex : str -> option str.
   Variable opt : aval.
   Variable mw : list word.
 
@@ -32,21 +32,25 @@ Section Text.
   Lemma rt_key s : roundtrip pe ex TyKey opt mw (VStr s).
   Proof. exists [qw s]. split; reflexivity. Qed.
 
-  (* os.path.expanduser leaves a text alone unless it starts with a tilde *)
-  Definition expanduser_spec : Prop := forall s, prefixb ["~"] s = false -> ex s = s.
+  (* os.path.expanduser leaves a text alone (and does not refuse it) unless it starts with a tilde *)
+  Definition expanduser_spec : Prop := forall s, prefixb ["~"] s = false -> ex s = Some s.
   Lemma rt_path s : expanduser_spec -> prefixb ["~"] s = false -> roundtrip pe ex TyPath opt mw (VStr s).
   Proof.
     intros H N. exists [qw s]. split; [reflexivity|].
     cbn [ty_from_words]. unfold path_from_words.
     change (str_from_words [qw s]) with (VStr s). cbv iota. rewrite (H s N). reflexivity.
   Qed.
-  Lemma path_tilde_refuted : ex ["~"] <> ["~"] ->
+  (* a text starting with a tilde: expanded, or refused with a user error (never an internal error) *)
+  Lemma path_tilde_refuted : ex ["~"] <> Some ["~"] ->
     exists ws, ty_as_words TyPath opt mw (VStr ["~"]) = Ok ws /\ ty_from_words pe ex TyPath opt ws <> Ok (VStr ["~"]).
   Proof.
     intro N. exists [qw ["~"]]. split; [reflexivity|].
     cbn [ty_from_words]. unfold path_from_words. change (str_from_words [qw ["~"]]) with (VStr ["~"]). cbv iota.
-    intro E. inversion E. contradiction.
+    destruct (ex ["~"]) as [p|]; [|discriminate]. intro E. inversion E. subst. apply N. reflexivity.
   Qed.
+  Lemma path_refusal_is_user_error s : ex s = None ->
+    ty_from_words pe ex TyPath opt [qw s] = UErr (s_ "PathRefused") s 0.
+  Proof. intro H. cbn [ty_from_words]. unfold path_from_words. change (str_from_words [qw s]) with (VStr s). cbv iota. rewrite H. reflexivity. Qed.
 
   (* ---------------------------------------------------------------- words *)
   Lemma rt_words ws : Parser.is_plain_none ws = false -> Parser.is_plain_auto ws = false ->
